@@ -156,6 +156,63 @@ Example C05_refused_setup_leaves_stub :
   = [2; 2; 2; 0; 0; 2].
 Proof. vm_compute. reflexivity. Qed.
 
+(** The commitment a phase-2 signature is for satisfies the bounds: the signed content is the
+    request itself — all of its HTLC entries, repeated ones included ([j = req], the lists are
+    arbitrary lists, nothing requires their entries to differ) — and that is what was validated. *)
+Theorem C05_signed_commitment_bounds :
+  forall prof warn pol oc e s cs n req j,
+    (forall t, warn t = false) ->
+    max_feerate pol < U32MAX -> heights_fit prof pol cs ->
+    signed_counterparty est_new prof warn pol oc e s cs n req = Some j \/
+    signed_holder_redundant est_new prof warn pol oc e s cs n req = Some j ->
+    j = req /\ Bounds pol s cs n j.
+Proof.
+  intros prof warn pol oc e s cs n req j Hw Hm Hfit [H | H].
+  - unfold signed_counterparty in H.
+    destruct (sign_counterparty est_new prof warn pol oc e s cs n req) eqn:E; try discriminate.
+    inversion H; subst j. split; [reflexivity|].
+    apply sign_counterparty_facts in E. destruct E as (_ & E & _).
+    eapply accept_implies_bounds; eassumption.
+  - unfold signed_holder_redundant in H.
+    destruct (validate_entry _ est_new prof warn pol e s cs n req) eqn:E; try discriminate.
+    inversion H; subst j. split; [reflexivity|].
+    eapply C05_accept_implies_bounds; eassumption.
+Qed.
+Print Assumptions C05_signed_commitment_bounds.
+
+(** two identical HTLCs are two entries: accepted when the full lists are within bounds ... *)
+Example C05_identical_htlcs_nonvacuous :
+  let pol := mkPol 4 2016 1000000001 2 20000 false 253 333333 in
+  let s := mkSetup true 3000000 0 6 7 StaticRemoteKey 0 in
+  let e := mkEstate 0 23 22 false (Some true) false None in
+  let req := mkInfo true 1000000 1979000 [(10000, 131072); (10000, 131072)] [] 0 in
+  signed_counterparty est_new Debug strict pol false e s (mkChain 0 0 0) 23 req = Some req.
+Proof. vm_compute. reflexivity. Qed.
+
+(** ... and the statement is false of the variant that validates the lists without the repeated
+    entries: with a limit of 10 000 sat in flight, two identical 6 000 sat HTLCs are signed; with
+    a real fee of 10 sat (rate 10 < 253) the commitment is signed because the validator is
+    shown a fee of 10 010 sat *)
+Example C05_dedup_validation_refuted :
+  let s := mkSetup true 3000000 0 6 7 StaticRemoteKey 0 in
+  let e := mkEstate 0 23 22 false (Some true) false None in
+  let cs := mkChain 0 0 0 in
+  (let pol := mkPol 4 2016 1000000001 1000 10000 false 253 333333 in
+   let req := mkInfo true 1000000 1987000 [(6000, 131072); (6000, 131072)] [] 0 in
+   signed_counterparty_dedup est_new Debug strict pol false e s cs 23 req = Some req /\
+   ~ inflight_bound pol req /\
+   signed_counterparty est_new Debug strict pol false e s cs 23 req = None) /\
+  (let pol := mkPol 4 2016 1000000001 1000 16777216 false 253 333333 in
+   let req := mkInfo true 1000000 1979990 [(10000, 131072); (10000, 131072)] [] 0 in
+   signed_counterparty_dedup est_new Debug strict pol false e s cs 23 req = Some req /\
+   ~ fee_bound pol s req /\
+   signed_counterparty est_new Debug strict pol false e s cs 23 req = None).
+Proof.
+  split; (split; [vm_compute; reflexivity|]); (split; [|vm_compute; reflexivity]).
+  - unfold inflight_bound. vm_compute. intros H. apply H. reflexivity.
+  - intros (_ & H & _). vm_compute in H. apply H. reflexivity.
+Qed.
+
 (** Filter semantics: the default filter downgrades nothing; a tag is downgraded only by an
     explicit matching rule with action Warn that no earlier rule pre-empts; rules without
     Warn give the non-permissive filter; an earlier matching Error rule protects a tag. *)
